@@ -9,8 +9,14 @@ W=/tmp/brk_$PID; OUT=$W/out
 [ -f $OUT/change$I.diff ] || { echo "no change$I.diff"; exit 2; }
 cd $W || exit 2
 git checkout -q -- src 2>/dev/null
-BS=""; for c in $OUT/build_demo.sh $OUT/build.sh $W/demo/build.sh; do [ -f $c ] && BS=$c && break; done
-[ -n "$BS" ] || { echo "no demo build script"; exit 2; }
+BS=$W/confirm/build_generic.sh
+mkdir -p $W/confirm
+cat > $BS <<GEN
+#!/bin/sh
+# generic demo build against the scratch worktree: sh build_generic.sh demoN.cpp
+src="\$1"; out="\${src%.cpp}"
+exec g++ -std=gnu++20 -O2 -g -Wno-error -I$W/src -I$W/_build -isystem /root/miniconda/include "\$src" -o "\$out" $W/_build/libbabylon.a -Wl,-rpath,/root/miniconda/lib /usr/lib/x86_64-linux-gnu/libprotobuf.so /usr/lib/x86_64-linux-gnu/libabsl_*.so.20220623.0.0 /root/miniconda/lib/libfmt.so -latomic -lpthread
+GEN
 mkdir -p $W/confirm; cp $OUT/demo$I.cpp $W/confirm/demo$I.cpp
 res=""
 git apply $OUT/change$I.diff || { echo "change does not apply"; exit 2; }
